@@ -6,12 +6,33 @@ from harness.encode import enc, dec, canon
 DRAFTS = (3, 4, 6, 7)
 
 
+def ordered(x):
+    """the same JSON value with every object an OrderedDict (as json.load(object_pairs_hook=OrderedDict) gives them):
+    Python compares those key-order-sensitively, JSON objects are unordered"""
+    from collections import OrderedDict
+    if isinstance(x, dict):
+        return OrderedDict((k, ordered(v)) for k, v in x.items())
+    if isinstance(x, list):
+        return [ordered(v) for v in x]
+    return x
+
+
+def has_object(x):
+    return isinstance(x, dict) or (isinstance(x, list) and any(has_object(v) for v in x))
+
+
 def observe_pair(cls, a, b):
     """what the real keywords answer for the pair (a, b)"""
     c = [cls[d]({"const": a}).is_valid(b) for d in (6, 7)]
+    if has_object(a) and has_object(b):
+        oa, ob = ordered(a), ordered(b)
+        c += [cls[d]({"const": oa}).is_valid(ob) for d in (6, 7)]
     # (a longer enum of scalars next to `a`: b matches it exactly when it equals a -- the pads occur nowhere else)
     e = [cls[d]({"enum": [a]}).is_valid(b) for d in DRAFTS] + [cls[d]({"enum": [a, "pad-1", "pad-2", "pad-3", "pad-4", "pad-5", "pad-6", "pad-7", "pad-8"]}).is_valid(b) for d in DRAFTS]
     u = [cls[d]({"uniqueItems": True}).is_valid([a, b]) for d in DRAFTS]
+    if has_object(a) and has_object(b):
+        e += [cls[d]({"enum": [oa]}).is_valid(ob) for d in DRAFTS]
+        u += [cls[d]({"uniqueItems": True}).is_valid([oa, ob]) for d in DRAFTS]
     return c, e, u
 
 
